@@ -205,6 +205,7 @@ pub fn generate(seed: u64, n: usize, _thorough: bool, _corpus: Option<&str>) -> 
     let mut rq = Rng::new(seed ^ 0x71d7_e7a1_u64).fork();
     for k in 0..(if n >= 2000 { n / 20 } else { 30 }) { out.push(tiny_eval_probe(&mut rq, k)); }
     for k in 0..(if n >= 2000 { n / 40 } else { 16 }) { out.push(vars_macro_case(&mut rq, k)); }
+    for k in 0..(if n >= 2000 { n / 24 } else { 30 }) { out.push(sum_helper_case(&mut rq, k)); }
     // the TRUTH TABLES of every connective through the method / operator forms, twice (the receiver form - bare handle or
     // expression - is drawn per probe): 12 connective shapes x 8 value pairs x 3
     let mut rt = Rng::new(seed ^ 0x7ab1e_u64).fork();
@@ -1293,4 +1294,71 @@ fn vars_macro_case(r: &mut Rng, k: usize) -> Case {
     c.imp = format!("(ok (outcomes {}) {})", outs.join(" "), sx_rmodel(&mm));
     if sx::model(&mm) != sx::model(&pm) { c.impl_violation = Some(format!("the `vars!` macro declares something else than add_var / add_vars: macro {} vs plain {}", sx::domain(mm.domain()), sx::domain(pm.domain()))); }
     c
+}
+
+// ======================================================================================================
+// the `sum` helper on lists that MIX variable terms with Number entries (negative, zero and positive totals, numbers first,
+// last and in between, numbers only): the tree must be the left-nested `+` of the entries in order - compared with the
+// expression built with the `+` operator, with the Lean state machine, and (objective offset, right-hand side) with the text door.
+
+fn sum_helper_case(r: &mut Rng, k: usize) -> Case {
+    let mut b = ModelBuilder::new();
+    let hs: Vec<Var> = ["x", "y", "z"].iter().map(|n| b.add_var(*n, VariableType::IntegerRange(0, 4))).collect();
+    let names: Vec<String> = ["x", "y", "z"].iter().map(|n| n.to_string()).collect();
+    // the entries
+    let n_items = 2 + r.below(4);
+    let mut items: Vec<(Exp, Expr)> = vec![];
+    let target = match k % 3 { 0 => -1, 1 => 0, _ => 1 };           // sign of the total of the Number entries
+    let mut nums: Vec<f64> = vec![];
+    for _ in 0..n_items {
+        if r.chance(1, 2) {
+            let i = r.below(3); let c = r.range(1, 4) as f64;
+            if r.chance(1, 3) { items.push((Exp::Variable(i.to_string()), Expr::from(hs[i]))); }
+            else { items.push((Exp::BinOp(BinOp::Mul, Box::new(Exp::Number(c)), Box::new(Exp::Variable(i.to_string()))), c * hs[i])); }
+        } else { let v = r.range(-10, 10) as f64; nums.push(v); items.push((Exp::Number(v), Expr::from(v))); }
+    }
+    // steer the total of the numbers
+    let total: f64 = nums.iter().sum();
+    let fix = match target { -1 if total >= 0.0 => Some(-total - r.range(1, 5) as f64), 0 if total != 0.0 => Some(-total), 1 if total <= 0.0 => Some(-total + r.range(1, 5) as f64), _ => None };
+    if let Some(v) = fix { let at = r.below(items.len() + 1); items.insert(at, (Exp::Number(v), Expr::from(v))); }
+    if k % 7 == 6 { items.retain(|(e, _)| matches!(e, Exp::Number(_))); if items.is_empty() { items.push((Exp::Number(-3.0), Expr::from(-3.0))); } }   // numbers only
+    let abs_sum = { let mut it = items.iter().map(|(e, _)| e.clone()); let f = it.next().unwrap(); it.fold(f, |a, x| Exp::BinOp(BinOp::Add, Box::new(a), Box::new(x))) };
+    let via_sum = rooc::builder::sum(items.iter().map(|(_, be)| be.clone()).collect::<Vec<Expr>>());
+    let via_plus = { let mut it = items.iter().map(|(_, be)| be.clone()); let f = it.next().unwrap(); it.fold(f, |a, x| a + x) };
+    let rhs = r.range(0, 12) as f64;
+    let mk = |e: Expr, b: ModelBuilder| b.maximize(e.clone()).with(BuilderConstraint::new(e, Comparison::LessOrEqual, Expr::from(rhs), "cap".into()));
+    let b_sum = mk(via_sum, b.clone()); let b_plus = mk(via_plus, b.clone());
+    let m_sum = b_sum.clone().into_model(); let m_plus = b_plus.clone().into_model();
+    let mut c = Case::default();
+    c.tags = vec!["sum-helper".into(), format!("sum-helper-total-{}", match target { -1 => "negative", 0 => "zero", _ => "positive" })];
+    c.nontrivial = true;
+    c.show = format!("sum([{}]) ; maximize it subject to it <= {}", items.iter().map(|(e, _)| format!("{}", e)).collect::<Vec<_>>().join(", "), rhs);
+    // the Lean state machine on the abstract left-nested tree
+    let vars = names.iter().map(|n| format!("(add-var {} (int 0 4))", sx::q(n))).collect::<Vec<_>>().join(" ");
+    c.req = format!("history (ops {} (maximize {}) (with {}))", vars, sx::exp(&abs_sum), sx_bc("cap", Comparison::LessOrEqual, &abs_sum, &Exp::Number(rhs), false));
+    c.imp = format!("(ok (outcomes (handles 0) (handles 1) (handles 2) (unit) (unit)) {})", sx_rmodel(&m_sum));
+    if sx::model(&m_sum) != sx::model(&m_plus) {
+        c.impl_violation = Some(format!("sum(..) builds another expression than the entries joined with `+`: {} vs {}", sx::exp(&m_sum.objective().rhs), sx::exp(&m_plus.objective().rhs)));
+    } else {
+        // the same program as text: optimal value (objective offset) and verdict (right-hand side)
+        let rename = |e: &Exp| index_to_name(e, &names);
+        let tm = gen_model::build(OptimizationType::Max, rename(&abs_sum), vec![rooc::model_transformer::Constraint::new(rename(&abs_sum), Comparison::LessOrEqual, Exp::Number(rhs), "cap".into())],
+            &names.iter().map(|n| VarDecl { name: n.clone(), ty: VariableType::IntegerRange(0, 4) }).collect::<Vec<_>>());
+        let mut pr = r.fork();
+        let text = Printer { r: &mut pr, sp: Spelling { aliases: false, implicit_mul: false, redundant_parens: false, named_consts: false, minimal_parens: false }, consts: vec![] }.program(&tm);
+        let o_text = solve_text(&text);
+        let o_b = match std::panic::catch_unwind(std::panic::AssertUnwindSafe(|| b_sum.solve_with(Auto))) { Ok(Ok(s)) => format!("(solution {})", sx::num(s.value())), Ok(Err(BuilderError::Solver(e))) => solver_error(&e), Ok(Err(BuilderError::Linearization(e))) => crate::props::c01::lin_error(&e), Err(_) => "(panic)".into() };
+        if outcome_class(&o_b) != outcome_class(&o_text) { c.impl_violation = Some(format!("builder (sum helper) and text door disagree on the verdict: {} vs {} on {}", o_b, o_text, text.replace('\n', " ; "))); }
+        else if let (Some(a), Some(t)) = (outcome_value(&o_b), outcome_value(&o_text)) { if (a - t).abs() > 1e-6 * t.abs().max(1.0) { c.impl_violation = Some(format!("builder (sum helper) and text door disagree on the optimum: {} vs {} on {}", a, t, text.replace('\n', " ; "))); } }
+    }
+    c
+}
+
+fn index_to_name(e: &Exp, names: &[String]) -> Exp {
+    match e {
+        Exp::Number(_) => e.clone(),
+        Exp::Variable(i) => Exp::Variable(names[i.parse::<usize>().unwrap()].clone()),
+        Exp::BinOp(op, a, b) => Exp::BinOp(*op, Box::new(index_to_name(a, names)), Box::new(index_to_name(b, names))),
+        other => other.clone(),
+    }
 }
